@@ -39,4 +39,16 @@ PROPS["C16"] = {
     "level_note": "Trusted: Lean kernel; the lexical filepath model (validated by the path stream every run); factgen for the extension-test facts (F6_*). Clean idempotence on its own output is checked by the stream, not proved.",
 }
 
+PROPS["C06"] = {
+    "level": "proof",
+    "streams": ["version"],
+    "trusted_base": ["golang.org/x/mod/semver.Compare on the released-version table, modelled by the lexicographic order on (major, minor, patch)",
+                     "Go loop-variable semantics of module specs-go (regenerated fact F11: go directive + address-of-range-variable sites)",
+                     "Go map iteration = some permutation of the keys (the model is proved order-independent)"],
+    "assumptions": ["declared versions may carry one leading 'v' (I4)"],
+    "technique": "Lean 4 proof: requiredVersion = max introduction version of the features used (any placement, any device order, any map iteration order); ValidateVersion iff released and >= minimum; fact obligations on the version table and loop-variable aliasing; exhaustive placement correspondence with specs-go",
+    "level_text": "Kernel-checked theorems for every Spec: the model of MinimumRequiredVersion equals the declarative maximum over the features used at spec level or in any device, is invariant under device permutations and under moving edit blocks between levels, does not depend on the order in which Go iterates the version map (right-commutativity of the update + Perm.foldl_eq'), and ValidateVersion accepts iff the declared version is released and not lower. The regenerated facts (version table, predicate names, absence of address-of-range-variable under per-loop scoping) are named obligations. The model is compared with specs.MinimumRequiredVersion/ValidateVersion on every single feature and every pair of features at every placement for 0-3 devices, all declared version strings incl. near-misses, and random larger Specs with permuted devices and nil entries.",
+    "level_note": "Trusted: Lean kernel; semver.Compare only on the nine released versions (validated by the stream); factgen's reading of version.go and go.mod.",
+}
+
 NOT_APPLICABLE = {}
